@@ -101,7 +101,7 @@ class Check(BaseCheck):
 
     def correspond(self, drv, stats):
         fails = []
-        n_tri, n_tet = (24, 8) if self.quick else (300, 100)
+        n_tri, n_tet = (24, 8) if self.quick else (1500, 400)
         for case in self.problems(self.seed, n_tri, n_tet):
             n = len(case["v"])
             gen.use(case)
